@@ -153,3 +153,8 @@ static void build_fs(void)
 	g_sfree = IN.sfree;
 	g_other = 0; g_cb_calls = 0; g_badgroup = 0; g_touch = 0;
 }
+
+/* named loop anchor of ext2fs_block_alloc_stats_range (hooks-pending/fio.diff): empty unless a unit defines the invariant */
+#ifndef VERIF_INV_BLOCK_ALLOC_STATS_RANGE
+#define VERIF_INV_BLOCK_ALLOC_STATS_RANGE
+#endif
